@@ -96,12 +96,20 @@ func (b *baseUnderlay) Close() error {
 	default:
 	}
 
+	// Close the sessions at the same time. Closing a session
+	// can take a second, and there can be many of them.
+	var wg sync.WaitGroup
 	b.sessionMap.Range(func(k, v any) bool {
 		s := v.(*Session)
-		s.Close()
-		s.wg.Wait()
+		wg.Add(1)
+		go func() {
+			defer wg.Done()
+			s.Close()
+			s.wg.Wait()
+		}()
 		return true
 	})
+	wg.Wait()
 	close(b.done)
 	UnderlayCurrEstablished.Add(-1)
 	return nil
